@@ -24,7 +24,25 @@ for d in sorted(glob.glob("/verif/seeded/*/")):
     if pid in props:
         seeds.append(d.rstrip("/"))
 sd = run(["/verif/seedcheck.py", "--props=" + pid] + seeds) if seeds else {}
-rf = run(["/verif/refaccheck.py", "--props=" + pid])
+# independent refactorings that touch a file in which this property has obligations
+files = set()
+try:
+    for o in json.load(open(ev))["coverage"].get("all_obligations", []):
+        pos = o.get("pos") or ""
+        if ":" in pos:
+            files.add(pos.split(":")[0])
+except Exception:
+    pass
+rdirs = []
+for d in sorted(glob.glob("/verif/refactors/*/")):
+    try:
+        touched = set(l[6:].strip() for l in open(d + "patch.diff") if l.startswith("+++ b/"))
+    except Exception:
+        continue
+    if touched & files:
+        rdirs.append(d.rstrip("/"))
+rf = run(["/verif/refaccheck.py", "--props=" + pid] + rdirs) if rdirs else {}
+rf["selected_of"] = len(glob.glob("/verif/refactors/*/"))
 try:
     e = json.load(open(ev))
     e["coverage"]["selftest"] = {
